@@ -433,6 +433,17 @@ func replayCase(rf *vt.ReplayFile) error {
 		}
 		_, err := runHello(&c)
 		return err
+	case "listener":
+		var c listenerCase
+		if err := vt.Decode(rf, &c); err != nil {
+			return err
+		}
+		for i := 0; i < 10; i++ {
+			if _, err := runListener(&c); err != nil {
+				return err
+			}
+		}
+		return nil
 	case "segmentation":
 		var c segCase
 		if err := vt.Decode(rf, &c); err != nil {
